@@ -45,6 +45,7 @@ type PodSpec struct {
 	NoMatch  bool   // labels do not match the selector
 	BadIdent bool   // pod-name label missing
 	BadStor  bool   // volumes do not reference the claims
+	NoLabels bool   // no labels at all (matches only selectors that admit label-less pods, e.g. the empty one)
 	Tmpl     string // template the pod was built from (defaults to the revision's)
 }
 
@@ -334,6 +335,9 @@ func (w *World) BuildPod(set *apps.StatefulSet, p PodSpec, nclaims int) *v1.Pod 
 	}
 	if p.Rev != "" {
 		pod.Labels[kubeapps.StatefulSetRevisionLabel] = w.realRevName(set.Name, p.Rev)
+	}
+	if p.NoLabels {
+		pod.Labels = nil
 	}
 	pod.Spec.Hostname = name
 	pod.Spec.Subdomain = set.Spec.ServiceName
